@@ -330,3 +330,39 @@ def deep_copy(v):
     if isinstance(v, list):
         return [deep_copy(x) for x in v]
     return v
+
+
+class MatView(Mat):
+    """m.row(i) / m.col(j): a materialised copy that remembers its parent (for swap and assignment)"""
+    def __init__(self, parent, axis, idx):
+        if axis == 'row':
+            Mat.__init__(self, 1, parent.c, [list(parent.d[idx])], parent.kind, parent.cplx)
+        else:
+            Mat.__init__(self, parent.r, 1, [[parent.d[i][idx]] for i in range(parent.r)], parent.kind, parent.cplx)
+        self.parent, self.axis, self.idx = parent, axis, idx
+    def write_back(self, m):
+        p = self.parent
+        vals = m.elems()
+        if self.axis == 'row':
+            p.d[self.idx] = list(vals)
+        else:
+            for i in range(p.r):
+                p.d[i][self.idx] = vals[i]
+        self.d = [list(r) for r in (m.d if (m.r, m.c) == (self.r, self.c) else m.T().d)]
+    def swap(self, other):
+        a, b = self.elems(), other.elems()
+        tmp_self = Mat(self.r, self.c, [list(r) for r in self.d], self.kind, self.cplx)
+        tmp_other = Mat(other.r, other.c, [list(r) for r in other.d], other.kind, other.cplx)
+        self.write_back(tmp_other)
+        other.write_back(tmp_self)
+
+class DataView:
+    """m.data(): column-major element access"""
+    def __init__(self, m):
+        self.m = m
+    def __len__(self):
+        return self.m.r * self.m.c
+    def __getitem__(self, i):
+        return self.m.d[i % self.m.r][i // self.m.r]
+    def __setitem__(self, i, v):
+        self.m.d[i % self.m.r][i // self.m.r] = v
